@@ -228,7 +228,10 @@ func (f *Frame) checkPost(c *Contract, sig *types.Signature, o Outcome, rets []V
 			env.vars[n] = v
 		}
 		if isErrorType(sig.Results().At(i).Type()) {
-			env.vars["err"] = v
+			if _, isParam := pvars["err"]; !isParam {
+				// (a parameter named err keeps its name; the error result is then resultN only)
+				env.vars["err"] = v
+			}
 		}
 	}
 	if len(rets) == 1 {
@@ -251,6 +254,48 @@ func (f *Frame) checkPost(c *Contract, sig *types.Signature, o Outcome, rets []V
 	}
 	if !c.NoFrame {
 		f.checkFrame(c, env, st, retIdx, o)
+	}
+	f.checkGhostFrame(c, env, st, retIdx, o)
+}
+
+// checkGhostFrame: ghost maps (database contents dbmap(d), named ghost maps gmap(..)) written by the
+// body must be listed in `modifies` -- callers havoc exactly the modifies set, so a contract that
+// changes a ghost map without declaring it would make its callers' proofs vacuous.  Checked for
+// every function, `noframe` or not.
+func (f *Frame) checkGhostFrame(c *Contract, env *SpecEnv, st *State, retIdx int, o Outcome) {
+	in := f.in
+	if len(in.dbCells) == 0 {
+		return
+	}
+	allowed := map[*Cell]bool{}
+	entryEnv := env.withState(f.entry)
+	for _, m := range c.Modifies {
+		if x, ok := m.(*SIndex); ok && x.I == nil {
+			if b, ok := entryEnv.eval(x.X).(MapV); ok {
+				allowed[b.M] = true
+			}
+		}
+	}
+	for _, k := range sortedKeys(in.dbCells) {
+		cl := in.dbCells[k]
+		if allowed[cl] {
+			continue
+		}
+		now, had := st.store[cl]
+		if !had {
+			continue
+		}
+		var before Val
+		if v, ok := f.entry.store[cl]; ok {
+			before = v
+		} else if v, ok := in.initial[cl]; ok {
+			before = v
+		} else {
+			continue
+		}
+		x, y := before.(MapC), now.(MapC)
+		goal := And(Eq(x.Has, y.Has), Eq(x.Val, y.Val))
+		f.oblige(st, "frame", fmt.Sprintf("%s#frame:ghost(%s)@ret%d", f.key, cl.Name, retIdx), o.Pos, goal, "ghost map unchanged (not in modifies): "+cl.Name)
 	}
 }
 
